@@ -291,6 +291,25 @@ def check_trajectory(r, case):
             r.fail("trajectory-steps", f"joint plan {lines}: {tr if isinstance(tr, Raised) else len(tr)} for {len(plan)} joint "
                    f"actions", len(plan), str(tr)[:200], tags=[case["domain"], "trajectory"])
             return
+        # the same plan read from a file: bracketed and plain line layout, with and without a final line end
+        if not pad:
+            from ..bridge import write_tmp
+            plain = [" ".join("(nop )" if c is None else "(" + " ".join((c[0],) + tuple(c[1])) + ")" for c in j) for j in plan]
+            for lname, ls in (("bracketed", lines), ("plain", plain)):
+                for final_nl in (True, False):
+                    path = write_tmp("\n".join(ls) + ("\n" if final_nl else ""), ".maplan")
+                    trf = guard(lambda: MultiAgentTrajectoryExporter(w.D).parse_plan(parse_problem(w.ptext, w.D), plan_path=path))
+                    r.count("histories")
+                    got_states = guard(lambda: [observe_state(t.next_state) for t in trf]) if not isinstance(trf, Raised) else trf
+                    ok = not isinstance(got_states, Raised) and len(got_states) == len(plan) and \
+                        all(same_state(g, e) for g, e in zip(got_states, states[1:])) and \
+                        all(len(t.joint_action) == len(w.agents) for t in trf)
+                    if not ok:
+                        r.fail("trajectory-steps", f"joint plan read from a file ({lname} layout, final line end: {final_nl}) "
+                               f"{ls}: {show(got_states) if isinstance(got_states, Raised) else [s.to_json() for s in got_states]}"
+                               f", expected {[s.to_json() for s in states[1:]]} with {len(w.agents)} slots per step",
+                               len(plan), str(got_states)[:200], tags=[case["domain"], "trajectory", "plan-file", lname])
+                        return
         for i, t in enumerate(tr):
             pre, post = guard(observe_state, t.previous_state), guard(observe_state, t.next_state)
             r.count("transitions")
